@@ -2,14 +2,20 @@
 import numpy as np
 import gen
 import spec
-from props.common import load_impl, exc_name, rand_keys, UView, rand_slice
+from props.common import load_impl, exc_name, rand_keys, UView, rand_slice, open_units, values_for
 
 RULE = ("random edit histories (<=12 ops quick, <=40 thorough) of item assignment (incl. negative indices), insert (negative / past-the-end), "
         "append, extend, delete, pop, slice delete, slicing (half of the slices with arbitrary bounds - open, negative, out of range on either side - and "
         "steps - open, positive, NEGATIVE: p[::-1], p[3::-1], p[::-2], p[2:-100:-1] ...; the result may be empty; the model is asked for the index list "
         "range(*slice.indices(len)), the reference is the plain list sliced with the same slice), reverse over formulas of mixed widths, executed on the real Provenance, on a plain "
         "Python list of the same formulas, and on the Lean model Ds.Prov (setItem/insert/delItem/...); after EVERY op the length, every row's "
-        "truth table (read back through __getitem__ and through query at all assignments) are compared. Non-trivial = the history contains a "
+        "truth table (read back through __getitem__ and through query at all assignments; values passed as an integer array, a boolean array and a "
+        "{unit key: candidate} dict, complete or with the candidate-0 units left out) are compared. About 30% of the histories (and one corpus case) "
+        "run over an OPEN, lazily growing unit set: Units(candidates=2) with no unit declared, every unit registered by the library on its first "
+        "mention, the container built from the initial formulas (which mention only some of the units) and some units FIRST MENTIONED by a formula that "
+        "a later set / insert / append / extend introduces, i.e. after the container was constructed (<=5 units; the library's unit order is then the "
+        "order of first mention, value arrays are laid out along the container's own public `units` sequence, the list side evaluates the formulas "
+        "by definition and the Lean model gets the final number of units). Non-trivial = the history contains a "
         "width change in each direction (narrower and wider than stored) and at least one deletion; distinct = distinct op sequences.")
 
 
@@ -21,18 +27,40 @@ def widths(e):
     return (len(e["disj"]), max(len(c) for c in e["disj"]))
 
 
+def _lits(e):
+    """the literals [unit, candidate] of a flat JSON formula"""
+    if "eq" in e:
+        return [e["eq"]]
+    if "conj" in e:
+        return list(e["conj"])
+    return [l for cj in e["disj"] for l in cj]
+
+
 def _sl(op):
     """the slice object of a slice / delslice op (step 's' optional; bounds may be None, negative or out of range)"""
     return slice(op["a"], op["b"], op.get("s"))
 
 
-def run_history(ctx, I, n_units, init, ops):
+def run_history(ctx, I, n_units, init, ops, lazy=False):
+    res, mops = _run_history(ctx, I, n_units, init, ops, lazy)
+    import random as _r
+    res["unit_keys"] = [str(x) for x in rand_keys(_r.Random(hash(str(init)) & 0xffff), n_units)[0]]     # the keys _run_history used (for the replay)
+    return res, mops
+
+
+def _run_history(ctx, I, n_units, init, ops, lazy=False):
+    """lazy: the unit set is OPEN (no unit declared up front); a unit exists for the library from its first mention by a formula, which may be a
+    formula that a later edit introduces - after the container was constructed."""
     P = I["provenance"]
     import random as _r
     keys, _scheme = rand_keys(_r.Random(hash(str(init)) & 0xffff), n_units)
-    raw_units = P.Units(units=list(keys), candidates=2)
-    units = UView(raw_units, keys)
-    from_default = all("eq" in e and e["eq"] == [i, 1] for i, e in enumerate(init)) and len(init) == n_units
+    if lazy:
+        units = open_units(I, keys)
+        raw_units = units.units
+    else:
+        raw_units = P.Units(units=list(keys), candidates=2)
+        units = UView(raw_units, keys)
+    from_default = (not lazy) and all("eq" in e and e["eq"] == [i, 1] for i, e in enumerate(init)) and len(init) == n_units
     flags = []
     if from_default:
         prov = P.Provenance(units=raw_units)          # the default one-row-per-unit provenance OBJECT (is_simple), then edited in place
@@ -111,25 +139,50 @@ def run_history(ctx, I, n_units, init, ops):
         # compare with the reference now
         if ref_err != impl_err:
             return dict(step=k, op=op, what="exception behaviour differs from list", impl=impl_err, spec=ref_err), mops
+        stab = [[spec.expr_true(e, a) for e in ref] for a in asg]
+        stage = "len"
         try:
             ln = len(prov)
-            tab = [[bool(x) for x in np.asarray(prov.query(np.array(a))).tolist()] for a in asg]
-            back = [[bool(prov[i].eval(list(a))) for i in range(ln)] for a in asg]
-            tab_b = [[bool(x) for x in np.asarray(prov.query(np.array(a, dtype=bool))).tolist()] for a in asg]
+            # one value per unit the container knows, in the container's own order (= the positions, unless the unit set grows lazily)
+            cu = list(prov.units) if lazy else list(keys)
+            vals = [values_for(cu, keys, a) for a in asg] if lazy else [list(a) for a in asg]
+            stage = "query(integer array of length num_units=%d)" % prov.num_units
+            tab = [[bool(x) for x in np.asarray(prov.query(np.array(v, dtype=int))).tolist()] for v in vals]
+            if ln != len(ref) or tab != stab:
+                # reported before the read-back is attempted: a silently wrong query result is the worse symptom when the read-back would raise
+                return dict(step=k, op=op, what="container differs from the list after this op",
+                            impl=dict(len=ln, query=tab, readback="not attempted", **({"container_units": [str(x) for x in cu]} if lazy else {})),
+                            spec=dict(len=len(ref), table=stab)), mops
+            stage = "row read-back p[i] / p[i].eval(value list)"
+            rows = [prov[i] for i in range(ln)]       # every row read back once per op and per value form, then evaluated at all assignments
+            back = [[bool(r.eval(list(v))) for r in rows] for v in vals]
+            stage = "query(boolean array)"
+            tab_b = [[bool(x) for x in np.asarray(prov.query(np.array(v, dtype=bool))).tolist()] for v in vals]
             if tab_b != tab:
                 return dict(step=k, op=op, what="query with a boolean indicator vector differs from the same query with integers",
                             impl=dict(bool=tab_b, int=tab), spec=None), mops
+            # the same assignments as {unit key: candidate} dicts: complete, and with the candidate-0 units left out (a missing unit takes candidate 0)
+            dicts = [{keys[u]: a[u] for u in range(n_units) if j % 2 == 0 or a[u] != 0} for j, a in enumerate(asg)]
+            stage = "query(dict)"
+            tab_d = [[bool(x) for x in np.asarray(prov.query(dict(d))).tolist()] for d in dicts]
+            stage = "row read-back p[i] / p[i].eval(dict)"
+            rows = [prov[i] for i in range(ln)]
+            back_d = [[bool(r.eval(dict(d))) for r in rows] for d in dicts]
         except Exception as e:  # noqa
-            return dict(step=k, op=op, what="len/query/readback raised", impl=exc_name(e) + ": " + repr(e), spec=len(ref)), mops
-        stab = [[spec.expr_true(e, a) for e in ref] for a in asg]
+            return dict(step=k, op=op, what="len/query/readback raised", impl=exc_name(e) + ": " + repr(e) + " in " + stage, spec=len(ref)), mops
         if ln != len(ref) or tab != stab or back != stab:
             return dict(step=k, op=op, what="container differs from the list after this op",
-                        impl=dict(len=ln, query=tab, readback=back), spec=dict(len=len(ref), table=stab)), mops
+                        impl=dict(len=ln, query=tab, readback=back, **({"container_units": [str(x) for x in cu]} if lazy else {})),
+                        spec=dict(len=len(ref), table=stab)), mops
+        if tab_d != stab or back_d != stab:
+            return dict(step=k, op=op, what="container queried / read back with {unit: candidate} dicts differs from the list after this op",
+                        impl=dict(len=ln, query_dict=tab_d, readback_dict=back_d), spec=dict(len=len(ref), table=stab)), mops
         trace.append(stab)
         # the fast-path flag may only be set while the rows are exactly one `x_u == 1` per unit, in unit order
         flag = bool(prov.is_simple)
         flags.append(flag)
-        if flag and (ln != n_units or stab != [[a[u] == 1 for u in range(n_units)] for a in asg]):
+        order = [keys.index(x) for x in cu]       # the container's units as positions (0..n-1 in order, unless the unit set grows lazily)
+        if flag and (ln != len(order) or (not lazy and ln != n_units) or stab != [[a[u] == 1 for u in order] for a in asg]):
             return dict(step=k, op=op, what="is_simple is set on a container that is not the one-row-per-unit default",
                         impl=dict(is_simple=True, len=ln, query=tab), spec=dict(len=len(ref), table=stab)), mops
     return dict(trace=trace, flags=flags, from_default=from_default), mops
@@ -143,15 +196,38 @@ def rand_formula(rng, n_units, maxd, maxw):
     return e
 
 
-def gen_history(rng, n_units, max_ops):
-    init = [rand_formula(rng, n_units, 2, 2) for _ in range(rng.randint(1, 3))]
-    if rng.random() < 0.3:
+def _mention(rng, e, u):
+    """formula e with one of its literals moved to unit u (so that e certainly mentions u)"""
+    if "eq" in e:
+        return {"eq": [u, e["eq"][1]]}
+    if "conj" in e:
+        c = [list(l) for l in e["conj"]]
+        c[rng.randrange(len(c))][0] = u
+        return {"conj": c}
+    d = [[list(l) for l in cj] for cj in e["disj"]]
+    cj = d[rng.randrange(len(d))]
+    cj[rng.randrange(len(cj))][0] = u
+    return {"disj": d}
+
+
+def gen_history(rng, n_units, max_ops, lazy=False):
+    """lazy: the history is meant for an open unit set - the initial formulas mention only units 0..m-1 for some m < n_units, and the range the
+    formulas of later edits draw their units from grows by and by up to n_units (a formula generated right after the range grew mentions the newest
+    unit), so some units are first mentioned by a formula that an edit introduces after the container was constructed."""
+    m = rng.randint(1, n_units - 1) if lazy else n_units
+    init = [rand_formula(rng, m, 2, 2) for _ in range(rng.randint(1, 3))]
+    if not lazy and rng.random() < 0.3:
         init = [{"eq": [i, 1]} for i in range(n_units)]       # start from the default provenance
     ln = len(init)
     ops = []
     for _ in range(rng.randint(3, max_ops)):
         r = rng.random()
-        e = rand_formula(rng, n_units, 3, 3)
+        grew = lazy and m < n_units and rng.random() < 0.4
+        if grew:
+            m = min(n_units, m + rng.choice([1, 1, 2]))
+        e = rand_formula(rng, m, 3, 3)
+        if grew:
+            e = _mention(rng, e, m - 1)
         if r < 0.22 and ln > 0:
             ops.append({"op": "set", "i": rng.randrange(-ln, ln), "e": e})
         elif r < 0.40:
@@ -161,7 +237,9 @@ def gen_history(rng, n_units, max_ops):
             ops.append({"op": "append", "e": e})
             ln += 1
         elif r < 0.62:
-            es = [rand_formula(rng, n_units, 3, 3) for _ in range(rng.randint(1, 2))]
+            es = [rand_formula(rng, m, 3, 3) for _ in range(rng.randint(1, 2))]
+            if grew:
+                es[-1] = _mention(rng, es[-1], m - 1)
             ops.append({"op": "extend", "es": es})
             ln += len(es)
         elif r < 0.74 and ln > 1:
@@ -197,7 +275,7 @@ def gen_history(rng, n_units, max_ops):
     return init, ops
 
 
-def shrink(ctx, I, n_units, init, ops):
+def shrink(ctx, I, n_units, init, ops, lazy=False):
     """greedy removal of ops while the history still fails (lengths are recomputed by replaying on a list)"""
     def relen(init, ops):
         ref = list(init)
@@ -238,7 +316,7 @@ def shrink(ctx, I, n_units, init, ops):
             cand = relen(init, cur[:i] + cur[i + 1:])
             if cand is None:
                 continue
-            res, _ = run_history(ctx, I, n_units, init, cand)
+            res, _ = run_history(ctx, I, n_units, init, cand, lazy)
             if "what" in res:
                 cur = cand
                 changed = True
@@ -260,25 +338,48 @@ def run(ctx):
         (3, [{"disj": [[[0, 1]], [[1, 1], [2, 1]]]}, {"eq": [0, 1]}, {"eq": [1, 1]}], [{"op": "del", "i": 1}]),
         (3, [{"eq": [2, 1]}, {"disj": [[[0, 1]], [[1, 1]], [[2, 0]]]}, {"conj": [[0, 1], [1, 1], [2, 1]]}], [{"op": "del", "i": -1}, {"op": "pop"}]),
     ]
-    hist = [(n, i, o) for n, i, o in corpus] + [None] * n_hist
+    # an open unit set: units 1 and 2 are first mentioned by formulas that edits introduce after the container was constructed
+    corpus_lazy = [
+        (3, [{"eq": [0, 1]}, {"conj": [[0, 0], [0, 1]]}],
+         [{"op": "append", "e": {"conj": [[1, 1], [0, 1]]}}, {"op": "set", "i": 0, "e": {"disj": [[[2, 0]], [[1, 1], [2, 1]]]}}, {"op": "del", "i": 1},
+          {"op": "insert", "i": 0, "e": {"eq": [2, 1]}}]),
+    ]
+    hist = [(n, i, o, False) for n, i, o in corpus] + [(n, i, o, True) for n, i, o in corpus_lazy] + [None] * n_hist
     for h in hist:
         if h is None:
-            n_units = rng.randint(2, 4)
-            init, ops = gen_history(rng, n_units, max_ops)
+            lazy = rng.random() < 0.3
+            n_units = rng.randint(2, 5) if lazy else rng.randint(2, 4)
+            init, ops = gen_history(rng, n_units, max_ops, lazy)
         else:
-            n_units, init, ops = h
-        res, mops = run_history(ctx, I, n_units, init, ops)
+            n_units, init, ops, lazy = h
+        res, mops = run_history(ctx, I, n_units, init, ops, lazy)
         ws = [widths(e) for e in init] + [widths(o["e"]) for o in ops if "e" in o]
         nontriv = len(set(ws)) > 2 and any(o["op"] in ("del", "pop", "delslice") for o in ops)
-        ctx.case([init, ops], nontrivial=nontriv, sample=dict(nUnits=n_units, init=init, ops=ops), n_ops=len(ops))
+        ctx.case([init, ops, lazy], nontrivial=nontriv, sample=dict(nUnits=n_units, init=init, ops=ops, openUnitSet=lazy), n_ops=len(ops))
         ctx.maxi(ops=len(ops), units=n_units)
         for o in ops:
             ctx.dist["op=" + o["op"]] += 1
-        case = dict(nUnits=n_units, init=init, ops=ops)
+        ctx.dist["unit_set=" + ("open, units registered on first mention" if lazy else "declared up front")] += 1
+        if lazy:
+            seen = {l[0] for e in init for l in _lits(e)}
+            late = set()
+            for o in ops:
+                for e in ([o["e"]] if "e" in o else o.get("es", [])):
+                    new = {l[0] for l in _lits(e)} - seen
+                    if new:
+                        late.add(o["op"])
+                        seen |= new
+            for kind in (sorted(late) or ["no edit"]):
+                ctx.dist["open unit set: a unit first mentioned after construction by=" + kind] += 1
+        case = dict(nUnits=n_units, init=init, ops=ops, openUnitSet=lazy)
         if "what" in res:
-            small = shrink(ctx, I, n_units, init, ops)
-            res2, _ = run_history(ctx, I, n_units, init, small)
-            ctx.mismatch(res2.get("what", res["what"]), dict(nUnits=n_units, init=init, ops=small), impl=res2.get("impl"), spec=res2.get("spec"))
+            small = shrink(ctx, I, n_units, init, ops, lazy)
+            res2, _ = run_history(ctx, I, n_units, init, small, lazy)
+            ctx.mismatch(res2.get("what", res["what"]), dict(nUnits=n_units, init=init, ops=small, openUnitSet=lazy, unitKeys=res2.get("unit_keys"),
+                                                             **({"note": "openUnitSet: Units(candidates=2) with no unit declared; unit positions in the "
+                                                                 "formulas are harness labels, the library registers a unit on its first mention"}
+                                                                if lazy else {})),
+                         impl=res2.get("impl"), spec=res2.get("spec"))
             continue
         model = ctx.model({"op": "history", "prov": ({"nUnits": n_units, "default": True} if res["from_default"] else {"nUnits": n_units, "exprs": init}),
                            "ops": mops})
